@@ -28,7 +28,7 @@ func (s *Service) initHTTPStreams(mux *http.ServeMux) {
 // websocket 请求处理
 func (s *Service) onWebSocketRequest(w http.ResponseWriter, r *http.Request) {
 	username := r.Header.Get(usernameHeaderKey)
-	streamPath, ext := extractStreamPathAndExt(r.URL.Path)
+	streamPath, ext, _ := extractStreamPathAndExt(r.URL.Path)
 	_ = ext
 
 	if ws, ok := websocket.TryUpgrade(w, r, streamPath, username); ok {
@@ -66,7 +66,7 @@ func (s *Service) onStreamsRequest(w http.ResponseWriter, r *http.Request) {
 	}
 
 	// 获取文件后缀和流路径
-	streamPath, ext := extractStreamPathAndExt(r.URL.Path)
+	streamPath, ext, seq := extractStreamPathAndExt(r.URL.Path)
 
 	w.Header().Set("Access-Control-Allow-Origin", "*")
 	switch ext {
@@ -76,7 +76,7 @@ func (s *Service) onStreamsRequest(w http.ResponseWriter, r *http.Request) {
 		token := r.URL.Query().Get("token")
 		hls.GetM3u8(s.logger, streamPath, token, r.RemoteAddr, w)
 	case ".ts":
-		hls.GetTS(s.logger, streamPath, r.RemoteAddr, w)
+		hls.GetTS(s.logger, streamPath, seq, r.RemoteAddr, w)
 	default:
 		s.logger.Warnf("request file ext is not supported: %s.", ext)
 		http.NotFound(w, r)
@@ -107,7 +107,7 @@ func permissionInterceptor(w http.ResponseWriter, r *http.Request) bool {
 	userName := r.Header.Get(usernameHeaderKey)
 	u := auth.Get(userName)
 
-	streamPath, _ := extractStreamPathAndExt(r.URL.Path)
+	streamPath, _, _ := extractStreamPathAndExt(r.URL.Path)
 
 	if u == nil || !u.ValidatePermission(streamPath, auth.PullRight) {
 		http.Error(w, http.StatusText(http.StatusForbidden), http.StatusForbidden)
@@ -117,10 +117,18 @@ func permissionInterceptor(w http.ResponseWriter, r *http.Request) bool {
 	return true
 }
 
-// 提取请求路径中的流path和格式后缀
-func extractStreamPathAndExt(requestPath string) (streamPath, ext string) {
+// 提取请求路径中的流path和格式后缀。
+// hls 片段的请求路径为 <流path>/<片段序号>.ts，此时同时返回片段序号；
+// 权限检查和片段访问必须使用同一个流path，因此统一在这里拆分。
+func extractStreamPathAndExt(requestPath string) (streamPath, ext, seq string) {
 	ext = path.Ext(requestPath)
 	_, token, _ := scan.NewScanner('/', nil).Scan(requestPath[1:])
 	streamPath = requestPath[1+len(token) : len(requestPath)-len(ext)]
+	if ext == ".ts" {
+		if i := strings.LastIndex(streamPath, "/"); i >= 0 {
+			seq = streamPath[i+1:]
+			streamPath = streamPath[:i]
+		}
+	}
 	return
 }
